@@ -126,40 +126,233 @@ theorem headLoop_done (fuel : Nat) (p : P) (h : 2 ≤ p.core.state) : headLoop f
   | zero => rfl
   | succ n => simp [headLoop, h]
 
+theorem noCRLF_of_no13 : ∀ (l : Bytes), (∀ c ∈ l, c ≠ 13) → noCRLF l = true := by
+  intro l
+  induction l with
+  | nil => intro _; rfl
+  | cons a t ih =>
+    intro h
+    cases t with
+    | nil => rfl
+    | cons b t' =>
+      have ha : a ≠ 13 := h a (by simp)
+      simp only [noCRLF, Bool.and_eq_true, Bool.not_eq_true', decide_eq_false_iff_not]
+      exact ⟨fun hh => ha hh.1, ih (fun c hc => h c (by simp [hc]))⟩
+
+theorem parseDec_digits (b : Bytes) (n : Nat) (h : parseDec b = some n) : b ≠ [] ∧ ∀ c ∈ b, isDigit c = true := by
+  unfold parseDec at h
+  split at h
+  · cases h
+  · rename_i hh
+    simp only [not_or, Bool.not_eq_true, Bool.not_eq_false', List.isEmpty_iff] at hh
+    exact ⟨hh.1, fun c hc => (List.all_eq_true.mp (by simpa using hh.2)) c hc⟩
+
+theorem foldlM_hex : ∀ (b : Bytes) (a n : Nat), b.foldlM (fun a c => (hexVal c).map (a * 16 + ·)) a = some n →
+    ∀ c ∈ b, (hexVal c).isSome = true := by
+  intro b
+  induction b with
+  | nil => intro _ _ _ c hc; cases hc
+  | cons x t ih =>
+    intro a n h c hc
+    simp only [List.foldlM_cons] at h
+    cases hx : hexVal x with
+    | none => simp [hx] at h
+    | some v =>
+      simp only [hx, Option.map_some, Option.bind_eq_bind, Option.bind_some] at h
+      rcases List.mem_cons.mp hc with rfl | hc'
+      · simp [hx]
+      · exact ih _ _ h c hc'
+
+theorem parseHex_hex (b : Bytes) (n : Nat) (h : parseHex b = some n) : ∀ c ∈ b, (hexVal c).isSome = true := by
+  unfold parseHex at h
+  split at h
+  · cases h
+  · exact foldlM_hex b 0 n h
+
+theorem hex_ne13 (c : UInt8) (h : (hexVal c).isSome = true) : c ≠ 13 := by
+  intro hc; subst hc; revert h; decide
+
+theorem digit_props (c : UInt8) (h : isDigit c = true) : c ≠ 13 ∧ c < 128 ∧ isSpace c = false := by
+  simp only [isDigit, decide_eq_true_eq] at h
+  have h1 : 48 ≤ c.toNat := by simpa using (UInt8.le_iff_toNat_le.mp h.1)
+  have h2 : c.toNat ≤ 57 := by simpa using (UInt8.le_iff_toNat_le.mp h.2)
+  refine ⟨?_, ?_, ?_⟩
+  · intro hc; subst hc; simp at h1
+  · exact UInt8.lt_iff_toNat_lt.mpr (by simp; omega)
+  · simp only [isSpace, decide_eq_false_iff_not, not_or, not_and]
+    refine ⟨?_, ?_, ?_⟩
+    · intro hc; subst hc; simp at h1
+    · intro _ hc
+      have := UInt8.le_iff_toNat_le.mp hc
+      simp at this; omega
+    · intro _ hc
+      have := UInt8.le_iff_toNat_le.mp hc
+      simp at this; omega
+
+theorem dropWhile_self (p : UInt8 → Bool) : ∀ (l : Bytes), (∀ h : l ≠ [], p (l.head h) = false) → l.dropWhile p = l := by
+  intro l h
+  cases l with
+  | nil => rfl
+  | cons a t =>
+    have := h (by simp)
+    simp only [List.head_cons] at this
+    simp [List.dropWhile_cons, this]
+
+/-- `strip` of a space followed by a block whose ends are not white space -/
+theorem strip_sp (l : Bytes) (hne : l ≠ []) (hh : isSpace (l.head hne) = false) (hl : isSpace (l.getLast hne) = false) :
+    strip (32 :: l) = l := by
+  unfold strip
+  have h32 : isSpace 32 = true := by decide
+  rw [List.dropWhile_cons, h32]
+  simp only [if_true]
+  rw [dropWhile_self isSpace l (fun _ => hh)]
+  rw [dropWhile_self isSpace l.reverse (fun hr => by rw [List.head_reverse]; exact hl)]
+  simp
+
+
+/-- the `Transfer-Encoding: chunked` header -/
+theorem headLine_te (c : Core) (h1 : c.state = 1) :
+    headLine c (strTE ++ 58 :: 32 :: strChunked) =
+      .ok { c with chunked := true, headers := c.headers ++ [(strTE, strChunked)] } := by
+  have hs : ¬ c.state = 0 := by omega
+  have hn : (58 : UInt8) ∉ strTE := by decide +kernel
+  have hne : strTE ++ 58 :: 32 :: strChunked ≠ [] := by simp [strTE]
+  have hname : title (strip strTE) = strTE := by decide +kernel
+  have hval : strip (32 :: strChunked) = strChunked := by decide +kernel
+  have ha : (strTE ++ 32 :: strChunked).all (· < 128) = true := by decide +kernel
+  simp only [headLine, hs, if_false, hne, splitN_header strTE (32 :: strChunked) hn, ha, Bool.not_true,
+    Bool.false_eq_true, hname, hval, if_true, beq_self_eq_true, Bool.or_true]
+
+/-- the parser's state after the header block of a written message -/
+def WMsg.headCore (m : WMsg) (code : Nat) : Core :=
+  { state := 2, version := m.version, code := code, headers := m.parsedHeaders,
+    clen := match m.framing with
+      | .length _ => some m.body.length
+      | _ => none,
+    chunked := match m.framing with
+      | .chunked _ => true
+      | _ => false }
+
+/-- ... and after the whole message -/
+def WMsg.core (m : WMsg) (code : Nat) : Core :=
+  match m.framing with
+  | .chunked _ => { m.headCore code with body := m.body, hadEmpty := true, state := 3 }
+  | _ => { m.headCore code with body := m.body }
+
+theorem length_line_good (lt : Bytes) (n : Nat) (h : parseDec lt = some n) :
+    lt.all (· < 128) = true ∧ strip (32 :: lt) = lt ∧ noCRLF (strCL ++ 58 :: 32 :: lt) = true := by
+  obtain ⟨hne, hd⟩ := parseDec_digits lt n h
+  refine ⟨?_, ?_, ?_⟩
+  · exact List.all_eq_true.mpr (fun c hc => by simpa using (digit_props c (hd c hc)).2.1)
+  · exact strip_sp lt hne (digit_props _ (hd _ (List.head_mem hne))).2.2
+      (digit_props _ (hd _ (List.getLast_mem hne))).2.2
+  · apply noCRLF_of_no13
+    intro c hc
+    simp only [List.mem_append, List.mem_cons] at hc
+    rcases hc with hc | rfl | rfl | hc
+    · have : ∀ x ∈ strCL, x ≠ 13 := by decide +kernel
+      exact this c hc
+    · decide
+    · decide
+    · exact (digit_props c (hd c hc)).1
+
 theorem headLoop_write' (m : WMsg) (code : Nat) (g : Good m code) (rest : Bytes) (N : Nat) :
     headLoop (N + 1 + 1 + m.headers.length + 1) ⟨{}, write m ++ rest⟩ =
-      .ok ⟨{ m.core code with body := [] }, m.body ++ rest⟩ := by
+      .ok ⟨m.headCore code, m.wireBody ++ rest⟩ := by
   have hst := headLine_status {} m.version m.codeText m.reason code rfl g.vsp g.csp g.ascii g.code
   have h1 := headLoop_line (N + 1 + 1 + m.headers.length) {} _ (statusLine m)
-    (writeHeaders m.headers ++ (((if m.body = [] then [] else (strCL ++ 58 :: 32 :: m.lenText) ++ crlf) ++ (crlf ++ m.body)) ++ rest))
+    (writeHeaders m.headers ++ (m.framing.lines ++ (crlf ++ m.wireBody) ++ rest))
     (by decide) g.snocrlf hst
-  have hw : write m ++ rest = statusLine m ++ crlf ++ (writeHeaders m.headers ++ (((if m.body = [] then [] else (strCL ++ 58 :: 32 :: m.lenText) ++ crlf) ++ (crlf ++ m.body)) ++ rest)) := by
+  have hw : write m ++ rest = statusLine m ++ crlf ++ (writeHeaders m.headers ++ (m.framing.lines ++ (crlf ++ m.wireBody) ++ rest)) := by
     simp [write, List.append_assoc]
   rw [hw, h1]
   rw [headLoop_headers m.headers _ _ _ rfl g.hdrs]
-  by_cases hb : m.body = []
-  · simp only [hb, if_true, List.nil_append]
+  have gf := g.framing
+  cases hfr : m.framing with
+  | none =>
     have hbl := headLine_blank { ({ version := m.version, code := code, state := 1 } : Core) with headers := [] ++ m.headers } rfl
-    have := headLoop_line (N + 1) _ _ [] rest (by simp) rfl hbl
-    simp only [List.nil_append, List.append_assoc] at this ⊢
+    have := headLoop_line (N + 1) _ _ [] (m.wireBody ++ rest) (by simp) rfl hbl
+    simp only [Framing.lines, Framing.header, List.nil_append, List.append_assoc] at this ⊢
     rw [this, headLoop_done _ _ (by simp)]
-    simp [WMsg.core, WMsg.parsedHeaders, hb]
-  · simp only [hb, if_false]
+    simp [WMsg.headCore, WMsg.parsedHeaders, hfr, Framing.header]
+  | length lt =>
+    rw [hfr] at gf
+    obtain ⟨ga, gv, gn⟩ := length_line_good lt _ gf
     have hcl := headLine_clen { ({ version := m.version, code := code, state := 1 } : Core) with headers := [] ++ m.headers }
-      m.lenText m.body.length rfl (g.lascii hb) (g.lval hb) (g.len hb)
-    have h2 := headLoop_line (N + 1) _ _ (strCL ++ 58 :: 32 :: m.lenText) (crlf ++ m.body ++ rest) (by simp) (g.lnocrlf hb) hcl
-    have hbl := headLine_blank { ({ version := m.version, code := code, state := 1, clen := some m.body.length } : Core) with headers := [] ++ m.headers ++ [(strCL, m.lenText)] } rfl
-    have h3 := headLoop_line N _ _ [] (m.body ++ rest) (by simp) rfl hbl
-    simp only [List.nil_append, List.append_assoc] at h2 h3 ⊢
+      lt m.body.length rfl ga gv gf
+    have h2 := headLoop_line (N + 1) _ _ (strCL ++ 58 :: 32 :: lt) (crlf ++ m.wireBody ++ rest) (by simp) gn hcl
+    have hbl := headLine_blank { ({ version := m.version, code := code, state := 1, clen := some m.body.length } : Core) with headers := [] ++ m.headers ++ [(strCL, lt)] } rfl
+    have h3 := headLoop_line N _ _ [] (m.wireBody ++ rest) (by simp) rfl hbl
+    simp only [Framing.lines, Framing.header, headerLine, List.nil_append, List.append_assoc] at h2 h3 ⊢
     rw [h2, h3, headLoop_done _ _ (by simp)]
-    simp [WMsg.core, WMsg.parsedHeaders, hb]
+    simp [WMsg.headCore, WMsg.parsedHeaders, hfr, Framing.header]
+  | chunked cs =>
+    have hte := headLine_te { ({ version := m.version, code := code, state := 1 } : Core) with headers := [] ++ m.headers } rfl
+    have gn : noCRLF (strTE ++ 58 :: 32 :: strChunked) = true := by decide +kernel
+    have h2 := headLoop_line (N + 1) _ _ (strTE ++ 58 :: 32 :: strChunked) (crlf ++ m.wireBody ++ rest) (by simp) gn hte
+    have hbl := headLine_blank { ({ version := m.version, code := code, state := 1, chunked := true } : Core) with headers := [] ++ m.headers ++ [(strTE, strChunked)] } rfl
+    have h3 := headLoop_line N _ _ [] (m.wireBody ++ rest) (by simp) rfl hbl
+    simp only [Framing.lines, Framing.header, headerLine, List.nil_append, List.append_assoc] at h2 h3 ⊢
+    rw [h2, h3, headLoop_done _ _ (by simp)]
+    simp [WMsg.headCore, WMsg.parsedHeaders, hfr, Framing.header]
 
 /-- status line, headers and the blank line of a written message are consumed exactly -/
 theorem headLoop_write (m : WMsg) (code : Nat) (g : Good m code) (rest : Bytes) (fuel : Nat)
     (hf : (write m ++ rest).length < fuel) :
-    headLoop fuel ⟨{}, write m ++ rest⟩ = .ok ⟨{ m.core code with body := [] }, m.body ++ rest⟩ := by
+    headLoop fuel ⟨{}, write m ++ rest⟩ = .ok ⟨m.headCore code, m.wireBody ++ rest⟩ := by
   rw [headLoop_fuel fuel ((write m ++ rest).length + 1 + 1 + m.headers.length + 1) _ hf (by simp; omega)]
   exact headLoop_write' m code g rest _
+
+theorem parseHex_zero : parseHex [48] = some 0 := by decide
+
+/-- the chunk loop consumes the chunks of a written body and the closing zero chunk -/
+theorem chunkLoop_chunks : ∀ (cs : List (Bytes × Bytes)) (c : Core) (rest : Bytes) (fuel : Nat),
+    (∀ x ∈ cs, x.2 ≠ [] ∧ parseHex x.1 = some x.2.length) →
+    chunkLoop (fuel + cs.length + 1) ⟨c, writeChunks cs ++ rest⟩ =
+      .ok ⟨{ c with body := c.body ++ joinChunks cs, hadEmpty := true, state := 3 }, rest⟩ := by
+  intro cs
+  induction cs with
+  | nil =>
+    intro c rest fuel _
+    have hf : findCRLF (writeChunks [] ++ rest) = some 1 := by
+      have := findCRLF_line [48] (crlf ++ rest) rfl
+      simpa [writeChunks, List.append_assoc] using this
+    have ht : (writeChunks [] ++ rest).take 1 = [48] := by simp [writeChunks]
+    have hd : (writeChunks [] ++ rest).drop (1 + 2) = crlf ++ rest := by simp [writeChunks, crlf]
+    rw [List.length_nil, Nat.add_zero, chunkLoop]
+    simp only [hf, ht, hd, parseHex_zero]
+    have h1 : ¬ (0 + 2 > (crlf ++ rest).length) := by simp [crlf]
+    simp only [h1, if_false, if_true]
+    simp [joinChunks, crlf]
+  | cons x cs ih =>
+    intro c rest fuel hg
+    obtain ⟨hne, hhex⟩ := hg x (by simp)
+    have hn : noCRLF x.1 = true :=
+      noCRLF_of_no13 _ (fun b hb => hex_ne13 b (parseHex_hex _ _ hhex b hb))
+    have hf : findCRLF (writeChunks (x :: cs) ++ rest) = some x.1.length := by
+      have := findCRLF_line x.1 (x.2 ++ crlf ++ writeChunks cs ++ rest) hn
+      simpa [writeChunks, List.append_assoc] using this
+    have ht : (writeChunks (x :: cs) ++ rest).take x.1.length = x.1 := by
+      simp [writeChunks, List.append_assoc]
+    have hd : (writeChunks (x :: cs) ++ rest).drop (x.1.length + 2) = x.2 ++ (crlf ++ (writeChunks cs ++ rest)) := by
+      simp only [writeChunks, List.append_assoc]
+      rw [← List.drop_drop, List.drop_left']
+      · simp [crlf]
+      · rfl
+    have hpos : 0 < x.2.length := List.length_pos_iff.mpr hne
+    rw [show fuel + (x :: cs).length + 1 = (fuel + cs.length + 1) + 1 by simp; omega, chunkLoop]
+    simp only [hf, ht, hd, hhex]
+    have h1 : ¬ (x.2.length + 2 > (x.2 ++ (crlf ++ (writeChunks cs ++ rest))).length) := by
+      simp [crlf]
+    have h2 : ¬ x.2.length = 0 := by omega
+    simp only [h1, h2, if_false]
+    have h3 : (x.2 ++ (crlf ++ (writeChunks cs ++ rest))).take x.2.length = x.2 := by simp
+    have h4 : (x.2 ++ (crlf ++ (writeChunks cs ++ rest))).drop (x.2.length + 2) = writeChunks cs ++ rest := by
+      rw [← List.drop_drop, List.drop_left']
+      · simp [crlf]
+      · rfl
+    rw [h3, h4, ih _ rest fuel (fun y hy => hg y (by simp [hy]))]
+    simp [joinChunks, List.append_assoc]
 
 /-- one whole written message at the front of the buffer is parsed into exactly that message, and exactly its
     bytes are consumed -/
@@ -168,18 +361,48 @@ theorem norm_write (m : WMsg) (code : Nat) (g : Good m code) (rest : Bytes) :
   simp only [norm]
   rw [headLoop_write m code g rest _ (Nat.lt_succ_self _)]
   simp only [ok_bind, chunkPhase]
-  by_cases hb : m.body = []
-  · simp [WMsg.core, hb, bodyStep, pure, Except.pure]
+  have gf := g.framing
+  cases hfr : m.framing with
+  | none =>
+    rw [hfr] at gf
+    simp only [Framing.Good] at gf
+    simp [WMsg.headCore, WMsg.core, WMsg.wireBody, hfr, bodyStep, pure, Except.pure, gf]
     rfl
-  · have hl : 0 < m.body.length := List.length_pos_iff.mpr hb
-    simp [WMsg.core, hb, bodyStep, pure, Except.pure, hl]
-    show Except.ok _ = _
-    simp [hl]
+  | length lt =>
+    by_cases hb : m.body = []
+    · simp [WMsg.headCore, WMsg.core, WMsg.wireBody, hfr, bodyStep, pure, Except.pure, hb]
+      rfl
+    · have hl : 0 < m.body.length := List.length_pos_iff.mpr hb
+      simp [WMsg.headCore, WMsg.core, WMsg.wireBody, hfr, bodyStep, pure, Except.pure, hl]
+      show Except.ok _ = _
+      simp [hl]
+  | chunked cs =>
+    rw [hfr] at gf
+    obtain ⟨hbody, hcs⟩ := gf
+    have hcond : (m.headCore code).state = 2 ∧ (m.headCore code).chunked = true := by
+      simp [WMsg.headCore, hfr]
+    simp only [hcond, and_self, if_true, WMsg.wireBody, hfr]
+    have hlen : cs.length + 1 ≤ (writeChunks cs ++ rest).length := by
+      clear hcs hbody hfr
+      induction cs with
+      | nil => simp [writeChunks]
+      | cons x xs ih =>
+        have : crlf.length = 2 := rfl
+        simp only [writeChunks, List.length_cons, List.length_append] at ih ⊢; omega
+    obtain ⟨k, hk⟩ : ∃ k, (writeChunks cs ++ rest).length + 1 = k + cs.length + 1 := ⟨(writeChunks cs ++ rest).length - cs.length, by omega⟩
+    rw [hk, chunkLoop_chunks cs _ rest k hcs]
+    simp [WMsg.headCore, WMsg.core, hfr, bodyStep, pure, Except.pure, hbody]
+    rfl
 
-theorem core_complete (m : WMsg) (code : Nat) : (m.core code).complete = true := by
-  by_cases hb : m.body = [] <;> simp [WMsg.core, Core.complete, hb]
+theorem core_complete (m : WMsg) (code : Nat) (g : Good m code) : (m.core code).complete = true := by
+  have gf := g.framing
+  cases hfr : m.framing with
+  | none => simp [WMsg.core, WMsg.headCore, Core.complete, hfr]
+  | length lt => simp [WMsg.core, WMsg.headCore, Core.complete, hfr]
+  | chunked cs => simp [WMsg.core, WMsg.headCore, Core.complete, hfr]
 
-theorem core_msg (m : WMsg) (code : Nat) : (m.core code).msg = m.msg code := rfl
+theorem core_msg (m : WMsg) (code : Nat) : (m.core code).msg = m.msg code := by
+  cases hfr : m.framing <;> simp [WMsg.core, WMsg.headCore, Core.msg, WMsg.msg, hfr]
 
 theorem write_ne_nil (m : WMsg) : write m ≠ [] := by
   simp [write, crlf]
@@ -200,9 +423,10 @@ theorem feedLoop_writeAll : ∀ (ms : List (WMsg × Nat)) (fuel : Nat), ms.lengt
       simp only [feedLoop, writeAll, hne, if_false]
       have : app {} (write m ++ writeAll ms) = ⟨{}, write m ++ writeAll ms⟩ := by simp [app]
       rw [this, norm_write m code (hg (m, code) (by simp)) (writeAll ms)]
-      simp only [core_complete, if_true, core_msg]
+      simp only [core_complete m code (hg (m, code) (by simp)), if_true, core_msg]
       rw [ih n (by simpa using hf) (fun y hy => hg y (by simp [hy]))]
       simp
+
 
 /-! ## any prefix of a written stream satisfies the side condition of the segmentation theorem -/
 
@@ -213,39 +437,59 @@ theorem headLine_chunked_mono (c c' : Core) (line : Bytes) (h : headLine c line 
   repeat' (split at h)
   all_goals (first | (cases h; simp [hc]) | cases h)
 
-theorem headLoop_chunked_mono : ∀ (f : Nat) (p p' : P), headLoop f p = .ok p' →
-    p.core.chunked = true → p'.core.chunked = true := by
+theorem headLine_clen_mono (c c' : Core) (line : Bytes) (h : headLine c line = .ok c')
+    (hc : c.clen.isSome = true) : c'.clen.isSome = true := by
+  unfold headLine at h
+  dsimp only at h
+  repeat' (split at h)
+  all_goals (first | (cases h; simp [hc]) | cases h)
+
+theorem headLoop_mono : ∀ (f : Nat) (p p' : P), headLoop f p = .ok p' →
+    (p.core.chunked = true → p'.core.chunked = true) ∧ (p.core.clen.isSome = true → p'.core.clen.isSome = true) := by
   intro f
   induction f with
-  | zero => intro p p' h hc; simp [headLoop] at h; subst h; exact hc
+  | zero => intro p p' h; simp [headLoop] at h; subst h; exact ⟨id, id⟩
   | succ n ih =>
-    intro p p' h hc
+    intro p p' h
     rw [headLoop] at h
     split at h
-    · cases h; exact hc
+    · cases h; exact ⟨id, id⟩
     · split at h
-      · cases h; exact hc
+      · cases h; exact ⟨id, id⟩
       · split at h
         · cases h
         · rename_i c hcl
-          exact ih _ _ h (headLine_chunked_mono _ _ _ hcl hc)
+          obtain ⟨i1, i2⟩ := ih _ _ h
+          exact ⟨fun hc => i1 (headLine_chunked_mono _ _ _ hcl hc), fun hc => i2 (headLine_clen_mono _ _ _ hcl hc)⟩
 
 theorem H_write (m : WMsg) (code : Nat) (g : Good m code) (rest : Bytes) :
-    H ⟨{}, write m ++ rest⟩ = .ok ⟨{ m.core code with body := [] }, m.body ++ rest⟩ :=
+    H ⟨{}, write m ++ rest⟩ = .ok ⟨m.headCore code, m.wireBody ++ rest⟩ :=
   headLoop_write m code g rest _ (Nat.lt_succ_self _)
 
-/-- a read that is a prefix of a written message (followed by anything) announces no chunked framing -/
+/-- a written message never announces both framings -/
+theorem headCore_single_framing (m : WMsg) (code : Nat) :
+    (m.headCore code).chunked = false ∨ (m.headCore code).clen = none := by
+  cases hfr : m.framing <;> simp [WMsg.headCore, hfr]
+
+/-- a read that is a prefix of a written message (followed by anything) does not announce both framings either -/
 theorem GoodAt_prefix (m : WMsg) (code : Nat) (g : Good m code) (d e : Bytes) (h : d ++ e = write m ++ e')
     : GoodAt ⟨{}, d⟩ := by
   intro p1 h1 _ hch
-  exfalso
   have := H_app ⟨{}, d⟩ e
   rw [h1, ok_bind] at this
   have hw := H_write m code g e'
   simp only [app] at this
   rw [h, hw] at this
-  have hm := headLoop_chunked_mono _ _ _ this (by simpa [app] using hch)
-  simp [WMsg.core] at hm
+  obtain ⟨m1, m2⟩ := headLoop_mono _ _ _ this
+  rcases headCore_single_framing m code with hf | hf
+  · have := m1 (by simpa [app] using hch)
+    rw [hf] at this; cases this
+  · left
+    cases hcl : p1.core.clen with
+    | none => rfl
+    | some n =>
+      have := m2 (by simp [app, hcl])
+      rw [hf] at this; cases this
 
 theorem app_fresh (d : Bytes) : app {} d = ⟨{}, d⟩ := by simp [app]
 
@@ -268,7 +512,7 @@ theorem GoodRun_prefix : ∀ (ms : List (WMsg × Nat)), (∀ x ∈ ms, Good x.1 
       intro d' hd hr
       have hn : norm' (app {} d) = .ok ⟨m.core code, d'⟩ := by
         rw [app_fresh, hd, ← norm_eq]; exact norm_write m code g d'
-      refine GoodRun.msg {} ⟨m.core code, d'⟩ d ?_ hn (core_complete m code) ?_
+      refine GoodRun.msg {} ⟨m.core code, d'⟩ d ?_ hn (core_complete m code g) ?_
       · rw [app_fresh]; exact GoodAt_prefix m code g d [] (e' := d') (by simp [hd])
       · exact ih (fun y hy => hg y (by simp [hy])) d' e hr.symm
     rcases List.append_eq_append_iff.mp h with ⟨a', ha, hb⟩ | ⟨c', hc, hd⟩
@@ -295,5 +539,28 @@ theorem GoodRun_prefix : ∀ (ms : List (WMsg × Nat)), (∀ x ∈ ms, Good x.1 
             exact hne hraw.2
           · exact GoodRun.wait {} p3 d (by rw [app_fresh]; exact hga) hn (by simpa using hcpl)
     · exact full c' hc hd
+
+
+theorem goodHeaderB_sound (h : Bytes × Bytes) (hb : goodHeaderB h = true) : GoodHeader h := by
+  simp only [goodHeaderB, Bool.and_eq_true, Bool.not_eq_true', List.contains_eq_mem, decide_eq_false_iff_not,
+    beq_iff_eq, bne_iff_ne, ne_eq] at hb
+  obtain ⟨⟨⟨⟨⟨⟨h1, h2⟩, h3⟩, h4⟩, h5⟩, h6⟩, h7⟩ := hb
+  exact ⟨h1, h2, h3, h4, h5, h6, h7⟩
+
+theorem framing_goodB_sound (f : Framing) (body : Bytes) (hb : f.goodB body = true) : f.Good body := by
+  cases f with
+  | none => simpa [Framing.goodB, Framing.Good] using hb
+  | length lt => simpa [Framing.goodB, Framing.Good] using hb
+  | chunked cs =>
+    simp only [Framing.goodB, Bool.and_eq_true, beq_iff_eq, List.all_eq_true, Bool.not_eq_true',
+      List.isEmpty_eq_false_iff] at hb
+    exact ⟨hb.1, fun c hc => hb.2 c hc⟩
+
+/-- the executable check implies `Good` -/
+theorem goodB_sound (m : WMsg) (code : Nat) (hb : goodB m code = true) : Good m code := by
+  simp only [goodB, Bool.and_eq_true, Bool.not_eq_true', List.contains_eq_mem, decide_eq_false_iff_not,
+    beq_iff_eq, List.all_eq_true] at hb
+  obtain ⟨⟨⟨⟨⟨⟨h1, h2⟩, h3⟩, h4⟩, h5⟩, h6⟩, h7⟩ := hb
+  exact ⟨h1, h2, List.all_eq_true.mpr h3, h4, h5, fun h hh => goodHeaderB_sound h (h6 h hh), framing_goodB_sound _ _ h7⟩
 
 end HapVerif.Http
